@@ -11,6 +11,7 @@ from fractions import Fraction as F
 
 from common import Ctx, driver_json, fmt
 import aaverisk_lib as L
+import aave_lib as AL
 from aaverisk_lib import Case, Exact, close, TOL
 
 PROPERTY = "C12"
@@ -29,7 +30,7 @@ ASSUMPTIONS = ["risk tables satisfy RiskParamsSane (collateral-enabled => LT > 0
                "prices, indices > 0 and scaled balances >= 0 (WF); the market is open (write_func) on the bar"]
 
 MINTV = F(1e-18 - 1e-27)       # helper.MIN_TOKEN_VALUE (exact binary value), dust snapped by sub_base_amount
-HF_CLASSES = ["deep", "mid", "at95", "half", "at1", "safe"]
+HF_CLASSES = ["deep", "mid", "at95", "half", "at1", "safe", "tiny"]
 
 
 # ------------------------------------------------------------------------------------------------------------ generator
@@ -82,12 +83,14 @@ def gen_case(rng, stream):
         supplies.insert(rng.randint(0, len(supplies)), [n, str(L.rnd_dec(rng, -2, 6, 5)), False])
     cls = rng.choice(HF_CLASSES)
     if stream == "boundary":
-        cls = rng.choice(["at95", "at1", "half", "mid", "deep"])
+        cls = rng.choice(["at95", "at1", "half", "mid", "deep", "tiny"])
     case = Case(path, toks, supplies, [], {n: "7" for n in list(toks)[:2]}, rp_over)
     # weighted liquidation threshold, exactly
     wlt = sum((F(D(b)) * F(D(toks[n]["li"])) * F(D(toks[n]["p"])) * F(rp.loc[n].reserveLiquidationThreshold) for n, b, c in supplies if c), F(0))
     target = {"deep": F(rng.randint(5, 60), 100), "mid": F(rng.randint(61, 94), 100), "at95": F(95, 100),
-              "half": F(rng.randint(951, 999), 1000), "at1": F(1), "safe": F(rng.randint(101, 150), 100)}[cls]
+              "half": F(rng.randint(951, 999), 1000), "at1": F(1), "safe": F(rng.randint(101, 150), 100),
+              # dust collateral against real debts: 0 < HF <= 1e-6 (liquidated like any HF below 1; 1e-6 itself is a boundary value)
+              "tiny": F(rng.choice([1, 1, 3, 9]), 10 ** rng.choice([6, 6, 7, 9, 12, 20]))}[cls]
     if cls in ("at95", "at1") and not exact and rng.random() < 0.5:
         target += F(rng.choice([-1, 1]), 10 ** rng.choice([9, 20, 33]))
     total = wlt / target
@@ -106,8 +109,20 @@ def gen_case(rng, stream):
     tag = cls
     # ---- special shapes
     if stream == "special":
-        k = rng.choice(["nodebt", "nocoll", "zero-debt-entry", "lt0", "oversized", "heavy-bonus", "cheap-debt", "price0", "dust-debt", "dust-coll"])
+        k = rng.choice(["nodebt", "nocoll", "zero-debt-entry", "lt0", "oversized", "heavy-bonus", "cheap-debt", "price0", "dust-debt", "dust-coll",
+                        "capped-tie", "capped-tie"])
         tag = k
+        if k == "capped-tie":
+            # one collateral worth its debt x (1 + bonus) to the last digit: capped-or-not and the scaled-down repayment are decided
+            # by the 35-digit rounding (the inputs of `variable_delt < actual_debt_to_liquidate`)
+            ok = [n for n in collable if 0 < rp.loc[n].reserveLiquidationThreshold * (1 + rp.loc[n].reserveLiquidationBonus) < D("0.95")]
+            if ok:
+                cn = rng.choice(ok)
+                dn = rng.choice([n for n in names if n != cn])
+                pd_, pc, var, ub, kind = AL.capped_tie(rng, D(rp.loc[cn].reserveLiquidationBonus))
+                case = Case(path, {cn: {"li": "1", "bi": _idx(rng, False), "p": str(pc)}, dn: {"li": _idx(rng, False), "bi": "1", "p": str(pd_)}},
+                            [[cn, str(ub), True]], [[dn, str(var)]], {cn: "7"}, {})
+                return case, tag + ":" + kind
         if k in ("dust-debt", "dust-coll"):
             # remainders below MIN_TOKEN_VALUE that sub_base_amount snaps to 0 (demo.csv: WETH LT 0.825, bonus 0.05)
             A = D(rng.randint(1, 9000))
